@@ -844,6 +844,13 @@ class QvmCpu:
                       expected=a.type,
                       got=b.type)
 
+        if a.type.is_integral and abs(a.value) > 1 and b.value > 64:
+            # certainly outside the range of any integral type; do
+            # not compute the (astronomically large) exact power
+            self.trap(TrapCode.INVALID_CELL_VALUE,
+                      type=a.type,
+                      value='overflow')
+
         try:
             result = a.value ** b.value
         except OverflowError:
